@@ -24,7 +24,7 @@
    subject): the `return count` / `return 0` recovery paths after a failed
    malloc are not modelled.  The two hand-written exchange sorts of
    varintAdaptiveCountUnique are modelled by "the sorted permutation"
-   (Dict.qsort64), like qsort elsewhere.
+   (Dict.dict_qsort64), like qsort elsewhere.
 
    binary32: the three ratio tests are modelled exactly with integers.  A
    float that occurs here is 0 or a positive normal number m * 2^e with
@@ -143,7 +143,7 @@ Fixpoint adp_sample (vs : list N) (step skip need : N) : list N :=
   end.
 
 (* "sort, then count positions that differ from their predecessor" *)
-Definition adp_distinct_sorted (l : list N) : N := adp_len (uniq_sorted (qsort64 l)).
+Definition adp_distinct_sorted (l : list N) : N := adp_len (dict_uniq_sorted (dict_qsort64 l)).
 
 (* varintAdaptiveCountUnique *)
 Definition adp_count_unique (values : list N) : N :=
@@ -277,7 +277,7 @@ Definition adp_max_size (count : N) : N := u64 (1 + 20 + mul64 count 22).
 Definition adp_for_meta_zero : for_meta := mk_for_meta 0 0 0 0 0 0.
 
 (* the BITMAP case of EncodeWith: Create, Add every value below 65536 *)
-Definition adp_bitmap_of (values : list N) : bitmap :=
+Definition adp_bitmap_of (values : list N) : bm_state :=
   fold_left (fun vb v => if v <? 65536 then fst (bm_add vb (u16 v)) else vb) values bm_create.
 
 (* outcome of varintAdaptiveEncodeWith / varintAdaptiveEncode *)
@@ -383,10 +383,10 @@ Definition adp_decode (src : list N) (maxCount : N) : adp_dres :=
           end
       | 3 =>
           match dict_decode_into data (adp_max_size maxCount - 1) maxCount with
-          | DOk out _ => ADOk (adp_len out) out None
-          | DNull _ => ADOk 0 [] None
-          | DPartial stores _ => ADOk 0 stores None
-          | DFuel => ADFuel
+          | DictOk out _ => ADOk (adp_len out) out None
+          | DictNull _ => ADOk 0 [] None
+          | DictPartial stores _ => ADOk 0 stores None
+          | DictFuel => ADFuel
           end
       | 4 =>
           match fst (bm_decode data 1048576) with
